@@ -103,6 +103,20 @@ def check_config(cfg, drv, out):
     if not mh.get('connected', True):
         if kind != 'runtime-error':
             out['diffs'].append(('constructor refusal', case0, 'refused (not connected)', kind))
+            # the constructor accepted a set of layouts that cannot all be reached from each other on this process grid: what do the
+            # transposes do with it?  (replayed one pair at a time on fresh handlers)
+            for p in cfg['pairs']:
+                r1 = run_impl(dict(cfg, pairs=[p]))
+                c = dict(case0, src=p[0], dst=p[1], buf=p[2])
+                if r1.error_kind() != 'ok':
+                    out['fails'].append(('C01:unconnected-accepted', 'the handler accepted a set of layouts that is not connected on this process grid, and a '
+                                         'transpose then raised: ' + str(r1.first_error())[:160], c, None, None))
+                    break
+                recs = [v['pairs'][0] for v in r1.values()]
+                if not all(r['ok'] for r in recs):
+                    out['fails'].append(('C01:unconnected-accepted', 'the handler accepted a set of layouts that is not connected on this process grid, and a '
+                                         'transpose between two of them leaves a destination block that is not the global field', c, None, None))
+                    break
         out['hist']['refused-unconnected'] = out['hist'].get('refused-unconnected', 0) + 1
         return
     vals = [r[1] if r[0] == 'ok' else None for r in res.results]
@@ -175,8 +189,11 @@ def gen_config(rng, quick, it):
         nprocs = lu.rand_nprocs(rng, nd, max_ranks=6 if quick else 12)
     if len(nprocs) > nd:
         nprocs = nprocs[:nd]
+    connected = rng.random() < 0.93 and it % 8 != 3          # every eighth set is unconnected (the constructor must refuse it)
+    if it % 8 == 3:
+        nd = max(nd, 3)
+        nprocs = rng.choice([[2, 2], [2, 3], [3, 2]])         # two process directions: sets whose connectivity depends on the process grid
     shape = lu.rand_shape(rng, nd, nprocs, hi=6 if quick else 8)
-    connected = rng.random() < 0.93
     lays = lu.rand_layout_set(rng, nd, nprocs, want_connected=connected)
     if it % 6 == 5:
         # many orderings of a 4-D array: several pairs are joined by more than one shortest route (ties in the route table); the
@@ -227,6 +244,11 @@ def standard_configs():
         out.append({'nprocs': nprocs, 'ext': shape, 'layouts': L4, 'dtype': 'float64',
                     'pairs': [(a, b, ub) for a in names for b in names for ub in (False, True)] +
                              [(a, b, False) for a in names for b in names if a != b]})
+    # many processes along one direction with extents that are not multiples of the process count (7, 11, 13 processes: the block
+    # starts are an INTEGER formula; n/P is not representable for these counts)
+    for shape, nprocs in [([15, 22], [11]), ([61, 8], [7]), ([15, 30], [13])]:
+        out.append({'nprocs': nprocs, 'ext': shape, 'layouts': {'A': [0, 1], 'B': [1, 0]}, 'dtype': 'int64',
+                    'pairs': [('A', 'B', False), ('B', 'A', True)]})
     for shape, nprocs in [([5, 6, 7], [2, 3]), ([4, 4, 6], [1, 2]), ([6, 5, 4], [3, 1])]:
         names = list(L3)
         out.append({'nprocs': nprocs, 'ext': shape, 'layouts': L3, 'dtype': 'complex128',
